@@ -26,6 +26,8 @@ RULE = ('seeded random histories of 5..40 operations over 1..5 masters of a vers
         'after a destroy), failing (ill-typed updates, creations without the required column, restores of unknown '
         'versions, unknown masters, a few set() calls with an unknown keyword), dbrefused (as failing, plus values of a that collide with another '
         'master: open finding) and kwrefused (every other set() carries an unknown keyword: open finding; the updates after it are judged). '
+        'Class options: one case in three runs on a second fixture of the same shape with sqlmeta.cacheValues = False; by default one instance per '
+        'master is held for the whole history, one case in six re-selects every master after every step.  '
         'In front of them n/15 histories of 4..25 operations over 1..3 masters of a versioned class with sqlmeta.lazyUpdate = True (stream lazy, no '
         'UNIQUE column, class connection): create, assignment, set, syncUpdate, expire, restore; one in four flushes every assignment at once. '
         'Non-trivial = at least two masters or one restore, and at least three versions; distinct = distinct operation lists.')
@@ -48,7 +50,8 @@ TRUSTED_BASE = [
     'one instance per master, no raw SQL, no second connection (this is property C05); sqlite returns the rows of an unordered SELECT in rowid order; '
     'AUTOINCREMENT ids (a refused INSERT uses none), UNIQUE ignores NULLs and is checked per statement',
     'fixture: master columns a=IntCol(unique=True) b=StringCol(default=None) c=ForeignKey(other class, default=7; set and read through cID, never '
-    'dereferenced, sqlite does not enforce it), eager; no extraCols, no inheritance; '
+    'dereferenced, sqlite does not enforce it), eager; no extraCols, no inheritance; the same model and agree serve the fixture with '
+    'sqlmeta.cacheValues = False (what is archived is the stored row, whatever the instance caches); '
     'the lazyUpdate fixture of stream lazy is NOT in the Coq model (its cases go to Coq as the empty history): only the oracle judges it, against the '
     'instance values the harness reads after every step; after expire() the harness goes on with the instance get() hands out (expire takes the '
     'instance out of the cache; two live instances of one row are C05); '
@@ -328,6 +331,12 @@ def corpus():
                                                        ['changed', 1], ['next', 2], ['changed', 2]]},
         {'stream': 'valid', 'mode': 'txn', 'ops': [['create', [[0, 1]], {}], ['create', [[0, 2]], {}], ['assign', 2, 1, 'x'], ['assign', 2, 0, 3],
                                                    ['assign', 1, 1, 'y'], ['next', 1], ['changed', 1], ['next', 2]]},
+        # versioned master with sqlmeta.cacheValues = False, one instance held across several updates (seed c20_asdict_stale_without_cachevalues),
+        # and the same history with the masters re-selected after every step
+        {'stream': 'valid', 'nocv': True, 'ops': [['create', [[0, 1]], {'j': {'k': 1}}], ['assign', 1, 1, 'x'], ['assign', 1, 0, 2],
+                                                  ['set', 1, [[2, 3], [1, 'yy']], {'j': 7}], ['restore', 2], ['assign', 1, 0, 5], ['changed', 2]]},
+        {'stream': 'valid', 'nocv': True, 'reget': True, 'ops': [['create', [[0, 1]], {}], ['assign', 1, 1, 'x'], ['assign', 1, 0, 2],
+                                                                 ['set', 1, [[2, 3], [1, 'yy']]], ['restore', 2], ['assign', 1, 0, 5]]},
         # JSON / DateTime columns: archived and restored by value
         {'stream': 'valid', 'ops': [['create', [[0, 1]], {'j': {'k': 1}, 't': '2001-02-03 04:05:06'}], ['assign', 1, 1, 'x'],
                                     ['set', 1, [[0, 2]], {'j': [1, 'two', None], 't': None}], ['restore', 1], ['restore', 2]]},
@@ -343,12 +352,21 @@ def corpus():
 def generate(rng, tier):
     n = 900 if tier == 'quick' else 15000
     lazy = [gen_lazy_case(rng) for _i in range(n // 15)]
-    return lazy + [gen_case(rng, ['valid', 'destroy', 'failing', 'dbrefused', 'valid', 'kwrefused', 'destroy'][i % 7],
-                     ['class', 'perconn', 'class', 'txn', 'class'][i % 5]) for i in range(n)]
+    cases = [gen_case(rng, ['valid', 'destroy', 'failing', 'dbrefused', 'valid', 'kwrefused', 'destroy'][i % 7],
+                      ['class', 'perconn', 'class', 'txn', 'class'][i % 5]) for i in range(n)]
+    for i, c in enumerate(cases):
+        # class option dimension: one case in three runs on the fixture with sqlmeta.cacheValues = False; one case in six (of either
+        # fixture) re-selects its masters after every step, the others hold one instance per master throughout
+        if i % 3 == 1:
+            c['nocv'] = True
+        if i % 6 == 4:
+            c['reget'] = True
+    return lazy + cases
 
 
 def search_cases(rng, tier):
-    return [gen_lazy_case(rng) for _i in range(150)] + [gen_case(rng, ['valid', 'failing', 'dbrefused', 'kwrefused', 'destroy'][i % 5], ['class', 'perconn', 'txn'][i % 3]) for i in range(2500)]
+    return [gen_lazy_case(rng) for _i in range(150)] + [dict(gen_case(rng, 'valid', ['class', 'perconn', 'txn'][i % 3]), nocv=True)
+                                                        for i in range(300)] + [gen_case(rng, ['valid', 'failing', 'dbrefused', 'kwrefused', 'destroy'][i % 5], ['class', 'perconn', 'txn'][i % 3]) for i in range(2500)]
 
 
 # ---------------------------------------------------------------- implementation side
@@ -385,11 +403,16 @@ def run_history(case):
     F = type(SQLObject)('VerifC20F%dx%d' % (os.getpid(), _counter[0]), (SQLObject,), {
         '_connection': own, 'label': StringCol(default=None)})
     # js and ts (j, t in the cases) are codec columns outside the Coq model: judged by value by the oracle only
-    M = type(SQLObject)(name, (SQLObject,), {
+    # class options that must not matter for what is archived: nocv = sqlmeta.cacheValues = False (every attribute read is a SELECT, the
+    # instance keeps no column values)
+    opts = {}
+    if case.get('nocv'):
+        opts['sqlmeta'] = type('sqlmeta', (object,), {'cacheValues': False})
+    M = type(SQLObject)(name, (SQLObject,), dict(opts, **{
         '_connection': own,
         'a': IntCol(unique=True), 'b': StringCol(default=None), 'c': ForeignKey(F.__name__, default=7),
         'js': JSONCol(default=None), 'ts': DateTimeCol(default=None),
-        'versions': Versioning()})
+        'versions': Versioning()}))
     V = M.versions.versionClass
     F.createTable()
     M.createTable()
@@ -481,6 +504,10 @@ def run_history(case):
             except Exception as e:  # noqa
                 nm = type(e).__name__
                 out = ['exn', EXC.get(nm, 'other:' + nm)]
+            if case.get('reget'):
+                # re-select every master after every step (otherwise one instance per master is held for the whole history)
+                for mid in sorted(handles):
+                    handles[mid] = M.get(mid, **ckw)
             ms, vs = dump(work)
             api = [[i, [[v.id, v.masterID, v.a, v.b, v.cID] + jt(v) for v in o.versions]] for i, o in sorted(handles.items())]
             step = {'out': out, 'masters': ms, 'versions': vs, 'api': api, 'mpy': [[i] + jt(o) for i, o in sorted(handles.items())]}
@@ -1061,7 +1088,7 @@ def nontrivial(c, o):
 
 
 def key(c):
-    return ['lazy' if c.get('lazy') else c.get('mode', 'class'), c['ops']]
+    return ['lazy' if c.get('lazy') else c.get('mode', 'class'), bool(c.get('nocv')), bool(c.get('reget')), c['ops']]
 
 
 def distribution(cases, obs):
@@ -1071,6 +1098,8 @@ def distribution(cases, obs):
         d['streams'][c['stream']] = d['streams'].get(c['stream'], 0) + 1
         md = 'lazy' if c.get('lazy') else c.get('mode', 'class')
         d['modes'][md] = d['modes'].get(md, 0) + 1
+        opt = ('nocv' if c.get('nocv') else 'cached') + ('+reget' if c.get('reget') else '')
+        d.setdefault('class_options', {})[opt] = d.setdefault('class_options', {}).get(opt, 0) + 1
         if not isinstance(o, dict) or 'steps' not in o:
             continue
         prev = []
